@@ -46,6 +46,16 @@ func runC13(c *Ctx, pr *PropertyRun) {
 	// refusals of malformed headers and bodies before any backend call: the
 	// dispatch table shared with C01
 	c01Dispatch(c, pr, "C13")
+
+	// a request path or Destination that does not denote a resource (NUL,
+	// not absolute after cleaning) is refused with 4xx by the sanitiser: its
+	// decision table (shared with C03.sanitiser-shape)
+	if san := c.P.MustFunc(nil2rule(pr, "C13"), pkgWebdav, "(LocalFileSystem).localPath"); san != nil {
+		shape := NewRule("C13", "C13.path-refusal", "decision table of localPath: 4xx exactly for names with NUL or whose path.Clean form is not absolute; nothing else is refused and nothing else accepted (E2, shared with C03)")
+		shape.Exhaustive = true
+		pr.Rules = append(pr.Rules, shape)
+		c03Shape(c, shape, san, c.P)
+	}
 }
 
 func moduleOnly(p *Program) func(*ssa.Function) bool {
@@ -499,6 +509,62 @@ func c13Guards(c *Ctx, pr *PropertyRun, prop string, entries []*ssa.Function) {
 						}
 					}
 				}
+				// slice expressions x[lo:hi] on strings and slices: the bounds
+				// must be guaranteed by a dominating length test
+				if sx, isSl := in.(*ssa.Slice); isSl && (sx.Low != nil || sx.High != nil) {
+					xt := sx.X.Type().Underlying()
+					_, isS := xt.(*types.Slice)
+					bs, isB := xt.(*types.Basic)
+					if isS || (isB && bs.Info()&types.IsString != 0) {
+						need, known := int64(0), true
+						lo := int64(0)
+						if sx.Low != nil {
+							if c, ok := constInt(sx.Low); ok {
+								lo = c
+							} else if m, ok := lenMinusConst(sx.Low, sx.X); ok {
+								need = m
+							} else if !nonNegIndexResult(sx.Low, b) {
+								known = false
+							}
+						}
+						switch {
+						case sx.High == nil:
+							if lo > need {
+								need = lo
+							}
+						default:
+							if c, ok := constInt(sx.High); ok {
+								if c > need {
+									need = c
+								}
+							} else if m, ok := lenMinusConst(sx.High, sx.X); ok {
+								if lo+m > need {
+									need = lo + m
+								}
+							} else if !nonNegIndexResult(sx.High, b) {
+								known = false
+							}
+						}
+						if known {
+							r.Role("slice-bounds")
+							ok := need == 0
+							why := "bounds hold for every length"
+							if !ok {
+								if ok2, w := knownLongEnough(sx.X, need-1); ok2 {
+									ok, why = true, w
+								} else {
+									ok = guardedIndex(lt, sx.X, need-1, b)
+									why = "dominating len test"
+								}
+							}
+							r.Ob(ok)
+							r.Sample(map[string]interface{}{"function": fnKey(fn), "slice_needs_len": need, "guard": why, "ok": ok, "pos": p.instrPos(in)})
+							if !ok {
+								r.Violation(fmt.Sprintf("slice-bounds|%s|%d", fnKey(fn), need), p.instrPos(in), fmt.Sprintf("the slice expression in %s needs at least %d element(s)/byte(s) but is not dominated by a length test that guarantees them: a shorter input panics (slice bounds out of range)", fnKey(fn), need), nil)
+							}
+						}
+					}
+				}
 				// constant index
 				var sl ssa.Value
 				var idxV ssa.Value
@@ -517,6 +583,12 @@ func c13Guards(c *Ctx, pr *PropertyRun, prop string, entries []*ssa.Function) {
 					}
 				}
 				k, isConst := constInt(idxV)
+				if !isConst {
+					// x[len(x)-m]: the element exists iff len(x) >= m
+					if m, ok := lenMinusConst(idxV, sl); ok && m >= 1 {
+						k, isConst = m-1, true
+					}
+				}
 				if !isConst {
 					continue
 				}
@@ -537,7 +609,84 @@ func c13Guards(c *Ctx, pr *PropertyRun, prop string, entries []*ssa.Function) {
 	r.RequireRole("optional-pointer-use", "constant-index")
 	if p.Control {
 		r.ExpectControl("zzVerifControlGuard")
+		r.ExpectControl("slice-bounds|internal.zzVerifControlGuardSlice")
 	}
+}
+
+// lenMinusConst: v is len(x) - m for the same x (by value or access path).
+func lenMinusConst(v ssa.Value, x ssa.Value) (int64, bool) {
+	bin, ok := v.(*ssa.BinOp)
+	if !ok || bin.Op != token.SUB {
+		return 0, false
+	}
+	m, ok := constInt(bin.Y)
+	if !ok {
+		return 0, false
+	}
+	call, ok := bin.X.(*ssa.Call)
+	if !ok {
+		return 0, false
+	}
+	bi, ok := call.Call.Value.(*ssa.Builtin)
+	if !ok || bi.Name() != "len" || len(call.Call.Args) != 1 {
+		return 0, false
+	}
+	a := call.Call.Args[0]
+	if a == x {
+		return m, true
+	}
+	pa, oka := accessPath(a)
+	px, okx := accessPath(x)
+	if oka && okx && pa != "" && pa == px {
+		return m, true
+	}
+	return 0, false
+}
+
+// nonNegIndexResult: v is the result of a strings/bytes Index function and the
+// block is dominated by a test that excludes the negative "not found" value.
+func nonNegIndexResult(v ssa.Value, at *ssa.BasicBlock) bool {
+	call, ok := v.(*ssa.Call)
+	if !ok {
+		return false
+	}
+	n := calleeName(call.Common())
+	if !(strings.HasPrefix(n, "strings.Index") || strings.HasPrefix(n, "strings.LastIndex") || strings.HasPrefix(n, "bytes.Index") || strings.HasPrefix(n, "bytes.LastIndex")) {
+		return false
+	}
+	for _, ref := range *call.Referrers() {
+		bin, ok := ref.(*ssa.BinOp)
+		if !ok || bin.X != ssa.Value(call) {
+			continue
+		}
+		c, ok := constInt(bin.Y)
+		if !ok {
+			continue
+		}
+		for _, r2 := range *bin.Referrers() {
+			iff, ok := r2.(*ssa.If)
+			if !ok {
+				continue
+			}
+			nonNegEdge := -1
+			switch {
+			case bin.Op == token.LSS && c == 0: // i < 0
+				nonNegEdge = 1
+			case bin.Op == token.GEQ && c == 0:
+				nonNegEdge = 0
+			case bin.Op == token.EQL && c == -1:
+				nonNegEdge = 1
+			case bin.Op == token.NEQ && c == -1:
+				nonNegEdge = 0
+			case bin.Op == token.GTR && c == -1:
+				nonNegEdge = 0
+			}
+			if nonNegEdge >= 0 && edgeDominates(iff.Block(), nonNegEdge, at) {
+				return true
+			}
+		}
+	}
+	return false
 }
 
 // knownLongEnough: slices whose length is known from their construction.
@@ -862,4 +1011,11 @@ func posOf(p *Program, o *errOrigin) string {
 		return p.instrPos(o.Site)
 	}
 	return p.Pos(o.Fn.Pos())
+}
+
+// nil2rule returns a scratch rule to record an unresolved anchor on.
+func nil2rule(pr *PropertyRun, prop string) *RuleResult {
+	r := NewRule(prop, prop+".anchors", "anchors resolved")
+	pr.Rules = append(pr.Rules, r)
+	return r
 }
